@@ -109,7 +109,8 @@ def check(ctx: Ctx):
         _dichotomy(ctx, sc, vl, norm(cv[0].targets[0]), p_inf, hard, soft, "variable cost term")
         # every assigned variable contributes: the term may only be skipped for a missing / None value
         reject = {(f"len({p_vars}) != len({p_ass})", False), (f"len({p_ass}) != len({p_vars})", False)}
-        allowed = {(f"{vv}.name in {p_ass}", True), (f"{p_ass}[{vv}.name] is not None", True), (f"{p_ass}.get({vv}.name) is not None", True)} | reject
+        allowed = {(f"{vv}.name in {p_ass}", True), (f"{p_ass}[{vv}.name] is not None", True), (f"{p_ass}.get({vv}.name) is not None", True),
+                   (f"{vv}.name not in {p_ass}", False), (f"{p_ass}[{vv}.name] is None", False), (f"{p_ass}.get({vv}.name) is None", False)} | reject
         extra = sorted(x for x in _facts(ff, cv[0]) if x not in allowed)
         ctx.check(not extra, "R-PAIRING", "variable cost counted for every assigned value", sc, cv[0],
                   f"the variable-cost term is skipped under {extra}: a legitimate value that is falsy (0, False, '') would lose its cost")
